@@ -25,7 +25,8 @@ import (
 
 func filterOutHLSParams(rawQuery string) string {
 	if rawQuery != "" {
-		if q, err := url.ParseQuery(rawQuery); err == nil {
+		// ParseQuery returns the pairs it could parse even when it reports an error
+		if q, _ := url.ParseQuery(rawQuery); q != nil {
 			for k := range q {
 				if strings.HasPrefix(k, "_HLS_") {
 					delete(q, k)
